@@ -28,7 +28,9 @@ def run(ctx):
         # while the package definitions change from one content evaluation result to the next
         pool = [(quals[j], f"meaning {j}", ctx.rng.choice(["X [1P]", "X [2P]", "Muss [1P]", "X [2P] U [4]", "X"]) if ctx.rng.random() < 0.3 else valcorr.ahb_expr(ctx.rng))
                 for j in range(n)]
-        inp = ctx.rng.choice([None, "", "ZZZ"] + quals)
+        # not offered, but close to what is: a fragment / an extension / another letter case of a qualifier, a fragment of the joined list of qualifiers
+        near = ["Q", "0", " ", ", ", "q0", "Q0 ", " Q0", "Q00", "Q0, Q1", "Q0,Q1", "Q1, Q2", ", Q1"] + [q[:-1] for q in quals] + [q + q for q in quals] + [", ".join(quals)]
+        inp = ctx.rng.choice([None, "", "ZZZ"] + quals + ([ctx.rng.choice(near)] if ctx.rng.random() < 0.6 else []))
         de = ("P", "pool", pool, inp)
         status = ctx.rng.choice(STATUSES)
         mde = valcorr.to_maus(de)
